@@ -15,6 +15,9 @@ from harness import stmt_wire as SW
 META_PART = "statement layer: Coq model of declaration/assignment/control-flow translation (Lang/Stmt*.v) with a simulation theorem; tie = IR of the real parser vs model on generated programs; oracle = firmware trace vs CPython trace"
 
 FEATURE_SETS = [(), ("float",), ("funcs",), ("tuple",), ("float", "funcs", "tuple"), ("branch_first",),
+                # first assignments inside blocks and inside the main loop (sketch globals since the repair of
+                # F-C01-loop-local-reinit / F-C01-hoisted-decl-reinit: the region their guards used to exclude)
+                ("branch_first", "continue"), ("branch_first", "tuple"),
                 # `continue` (repaired defect F-C01-continue-dropped): inside the Coq statement fragment (PContinue / NContinue /
                 # NReturn): these programs go through the IR and execution correspondences and the trace oracle
                 ("continue",), ("continue", "float", "funcs", "tuple"),
@@ -212,6 +215,26 @@ CORPUS = [
     {"pre": [("assign", "i0", "2"), ("for", "k0", "3", [("assign", "i5", "(k0 + i0)")]), ("write", "i5"),
              ("assign", "w0", "0"), ("while", "(w0 < 2)", [("assign", "i6", "(w0 * 5)"), ("assign", "w0", "(w0 + 1)")]), ("write", "i6")],
      "main": [("if", [("(i0 > 1)", [("assign", "i7", "5")])], [("assign", "i7", "7")]), ("write", "(i7 + i5)"), ("assign", "i0", "(i0 - 1)")]},
+    # names FIRST assigned inside `while True:` persist between passes (repaired: F-C01-loop-local-reinit): bound under an
+    # `if` in the first pass only and accumulated afterwards; bound at body level and read at the head of the NEXT pass;
+    # bound behind two header lines (if > for, for > if, while > if); bound by a tuple assignment at body level
+    {"pre": [("assign", "i0", "0")],
+     "main": [("if", [("(i0 == 0)", [("assign", "i5", "5")])], []), ("assign", "i5", "(i5 + 2)"), ("assign", "i0", "(i0 + 1)"), ("write", "i5")]},
+    {"pre": [("assign", "i0", "0")],
+     "main": [("if", [("(i0 > 0)", [("write", "(i6 + 100)")])], []), ("assign", "i6", "(i0 * 3)"), ("assign", "i0", "(i0 + 1)")]},
+    {"pre": [("assign", "i0", "0"), ("assign", "w0", "0")],
+     "main": [("if", [("(i0 == 0)", [("for", "k0", "2", [("assign", "i5", "(k0 + 7)")])])], []),
+              ("for", "k1", "2", [("if", [("(i0 == 0)", [("assign", "i6", "(k1 + 1)")])], [])]),
+              ("assign", "w0", "0"),
+              ("while", "(w0 < 1)", [("if", [("(i0 == 0)", [("assign", "i7", "9")])], []), ("assign", "w0", "(w0 + 1)")]),
+              ("assign", "i0", "(i0 + 1)"), ("write", "(i5 * 100 + i6 * 10 + i7)"), ("assign", "i7", "(i7 - 1)")]},
+    {"pre": [("assign", "i0", "0")],
+     "main": [("if", [("(i0 > 0)", [("write", "(i5 * 10 + i6)")])], []), ("tuple", ["i5", "i6"], ["(i0 + 1)", "(i0 * 2)"]), ("assign", "i0", "(i0 + 1)")]},
+    # a name hoisted out of a loop nested in another loop of the prologue keeps its value (repaired: F-C01-hoisted-decl-reinit),
+    # also through if > for and with the outer construct running again
+    {"pre": [("assign", "w0", "0"), ("while", "(w0 < 2)", [("for", "k0", "(1 - w0)", [("assign", "i5", "5")]), ("assign", "w0", "(w0 + 1)"), ("write", "i5")]),
+             ("for", "k1", "2", [("if", [("(k1 < 2)", [("for", "k2", "(1 - k1)", [("assign", "i6", "(k2 + 8)")])])], []), ("write", "i6")])],
+     "main": [("assign", "i5", "(i5 + i6)"), ("write", "i5")]},
 ]
 
 
@@ -803,9 +826,9 @@ def run_unit(ctx: C.Ctx):
         "C int = Z and device float = Q in the models: runs that leave the 32-bit / binary32 range are detected on the CPython side and excluded, not blamed"]
     return {
         "distribution": distribution, "outside_guard_samples": outside[:3],
-        "theorems": "C01_no_silent_drop, C01_break_guard, C01_continue_guard, C01_continue_translation (all programs); C01_stmt_preserve_partial (simulation inside StmtGuard.guard_ok, modulo the shared expression semantics + SemFacts.sem_facts); C01_stmt_{range_bound,retype,promotion_reinit,loop_local_reinit}_refuted (witnesses = listed findings); helper functions (Lang/FnRet.v): C01_return_type_covers, C01_bool_helper_only_truth_values, C01_number_or_truth_helper_is_int (all label lists), C01_helper_call_value_preserved (every body with any number of return statements: same state, events and number on both sides), C01_helper_call_serial_preserved_partial (guard FnRet.uniform_kind), C01_helper_mixed_return_refuted (finding F-C01-helper-mixed-return); tuple assignment (Lang/TupleOrder.v): C01_tuple_rhs_evaluated_in_source_order, C01_tuple_declaration_evaluated_in_source_order (the emitted statements evaluate e0..en once each, in source order, before the first target is written)",
-        "guard": "StmtGuard.guard_ok: every variable first assigned at top level of the setup part (global) or at top level of the `while True:` body before any read in that body (loop() local); later assignments keep the type label; tuple assignment either as the declaration of distinct new names at top level of the setup part, or (n >= 1) to names that are all declared already with unchanged types (swap / rotation / parallel assignment through block-local temporaries `__tmp_assign_k`, at any nesting level and in the main loop; mixed new/declared tuples and tuple declarations inside the main loop stay outside); declared names are not spelled like a temporary; range() bound int-labelled, independent of the loop variable and of names the body assigns; loop variables fresh, unassigned, read only inside their loop; consistent expression ids.  Oracle guard (dynamic): no computed int leaves 32 bits (CPython run with every expression instrumented); a script whose deviation the extracted model itself predicts (outside guard_ok) is not blamed.  `continue` is inside the guard (any placement the parser accepts: in for / while loops, under nested ifs, in the body of the main loop where it is `return;` from loop())",
-        "unmodelled": ["helper functions: the return type and the returned value are modelled (Lang/FnRet.v, tied to _merge_return_types exhaustively and to the emitted return type of every generated helper); parameters / per-signature variants, locals of a helper and the call sites inside expressions are covered by the firmware-vs-CPython oracle only (generated helpers: several return statements, effects, calls in every expression position)", "side effects of expressions: the simulation theorem's expression semantics is pure; the ORDER of effectful right-hand sides of a tuple assignment is proved at the level of the emitted node list (C01_tuple_rhs_evaluated_in_source_order) and observed on the firmware by the oracle; C++ operand / argument evaluation order inside one expression is outside every model (finding F-C01-eval-order)", "lists, try/except, device objects (firmware-vs-CPython oracle only)", "hoisting (promotion: a name first assigned inside an if/while/for block) is in Lang.Transl and in the executable correspondence (IR and both traces), but outside the simulation theorem's guard; the three refuted witnesses (hoisted-decl-reinit, loop-local-reinit, retype) mark where the unchanged code stops preserving behaviour", "tuples mixing new and declared names, tuple declarations inside the main loop (loop() locals initialised from temporaries)", "expression translation (unit C01_expr): the simulation is modulo a shared opaque expression semantics", "16-bit int of a real AVR"],
+        "theorems": "C01_no_silent_drop, C01_break_guard, C01_continue_guard, C01_continue_translation (all programs); C01_stmt_preserve_partial (simulation inside StmtGuard.guard_ok, modulo the shared expression semantics + SemFacts.sem_facts); C01_stmt_{range_bound,retype}_refuted (witnesses = listed findings); repaired and positive: C01_nothing_is_reinitialised (EVERY accepted program: no node of setup() / loop() at any depth declares or assigns a default value - the universally quantified statement both repaired findings contradicted), C01_hoisted_declaration_dropped, C01_first_assignment_becomes_assignment, C01_main_loop_first_assignment_is_global (all inputs), C01_stmt_promotion_no_reinit, C01_stmt_loop_variable_persists (the witnesses of F-C01-hoisted-decl-reinit / F-C01-loop-local-reinit: both traces equal); helper functions (Lang/FnRet.v): C01_return_type_covers, C01_bool_helper_only_truth_values, C01_number_or_truth_helper_is_int (all label lists), C01_helper_call_value_preserved (every body with any number of return statements: same state, events and number on both sides), C01_helper_call_serial_preserved_partial (guard FnRet.uniform_kind), C01_helper_mixed_return_refuted (finding F-C01-helper-mixed-return); tuple assignment (Lang/TupleOrder.v): C01_tuple_rhs_evaluated_in_source_order, C01_tuple_declaration_evaluated_in_source_order (the emitted statements evaluate e0..en once each, in source order, before the first target is written)",
+        "guard": "StmtGuard.guard_ok: every variable first assigned at top level of the setup part (global) or at top level of the `while True:` body before any read in the text of that body (a global as well since the repair of F-C01-loop-local-reinit: default initialiser, assigned in place, value kept between passes); later assignments keep the type label; tuple assignment either as the declaration of distinct new names at top level of the setup part, or (n >= 1) to names that are all declared already with unchanged types (swap / rotation / parallel assignment through block-local temporaries `__tmp_assign_k`, at any nesting level and in the main loop; mixed new/declared tuples and tuple declarations inside the main loop stay outside); declared names are not spelled like a temporary; range() bound int-labelled, independent of the loop variable and of names the body assigns; loop variables fresh, unassigned, read only inside their loop; consistent expression ids.  Oracle guard (dynamic): no computed int leaves 32 bits (CPython run with every expression instrumented); a script whose deviation the extracted model itself predicts (outside guard_ok) is not blamed.  `continue` is inside the guard (any placement the parser accepts: in for / while loops, under nested ifs, in the body of the main loop where it is `return;` from loop())",
+        "unmodelled": ["helper functions: the return type and the returned value are modelled (Lang/FnRet.v, tied to _merge_return_types exhaustively and to the emitted return type of every generated helper); parameters / per-signature variants, locals of a helper and the call sites inside expressions are covered by the firmware-vs-CPython oracle only (generated helpers: several return statements, effects, calls in every expression position)", "side effects of expressions: the simulation theorem's expression semantics is pure; the ORDER of effectful right-hand sides of a tuple assignment is proved at the level of the emitted node list (C01_tuple_rhs_evaluated_in_source_order) and observed on the firmware by the oracle; C++ operand / argument evaluation order inside one expression is outside every model (finding F-C01-eval-order)", "lists, try/except, device objects (firmware-vs-CPython oracle only)", "hoisting (promotion: a name first assigned inside an if/while/for block) is in Lang.Transl and in the executable correspondence (IR and both traces), but outside the simulation theorem's guard; the refuted witness retype marks where the unchanged code stops preserving behaviour; hoisted-decl-reinit and loop-local-reinit are repaired (witness theorems C01_stmt_promotion_no_reinit / C01_stmt_loop_variable_persists, rewriter theorems for all inputs) ; for every accepted program C01_nothing_is_reinitialised excludes the defect class itself (no default re-initialisation anywhere) - a universally quantified SIMULATION theorem for hoisting is not proved", "tuples mixing new and declared names, tuple first-assignments inside the main loop (globals assigned from the temporaries: in Lang.Transl.tr_tuple_main and both correspondences, outside the simulation theorem's guard)", "expression translation (unit C01_expr): the simulation is modulo a shared opaque expression semantics", "16-bit int of a real AVR"],
         "evaluations": len(progs) + len(lsrcs) + ir["ir_cases"] + ir.get("exec_cases", 0) + hu.get("merge_cases", 0) + hu["helper_programs"], "list_programs_by_status": dict(lstats), "programs_by_status": dict(stats), "ir_correspondence": ir,
         "distinct_nontrivial": len({s for s, r in zip(srcs, res) if r["status"] == "equal" and len(r["py"]) >= 3}) + hu["nontrivial"],
         "samples": [srcs[0][len(progen.HEADER):], srcs[-1][len(progen.HEADER):]],
